@@ -58,6 +58,7 @@ type VC struct {
 	Variant    string
 	FirstIter  []string // replay hints: loop-head state equals the state before the loop
 	locIDs     map[string]string
+	mapKeySort map[string]string // map value heap -> key sort
 	extraHeaps map[string]string
 	extraOrder []string
 }
